@@ -15,7 +15,7 @@ CPU_BUDGET = 500
 REQUIRED_OBS = ["selective_extractions", "members_compared", "archives"]
 RULE = ("archives (solid single folder / 2..4 folders; files, directories, empty files; written by py7zr sessions or by the reference writer) x ALL subsets T of "
         "member names (<= 7 members) plus absent names (also names sharing leading characters with members, '', '.'), as list or set, +- trailing '/', recursive False/True/None, "
-        "directories stored with or without trailing '/', output to a WriterFactory (also with a path given: nothing may appear on disk) or a directory. "
+        "directories stored with or without trailing '/', one session after testzip()/test()/another extraction (histories), members that are respellings of one output path ('a', './a', 'd//f', same name twice: each lands where extractall puts it), output to a WriterFactory (also with a path given: nothing may appear on disk) or a directory. "
         "Model: sel(T,r) = members named in T (slash stripped) + if r members beneath a named directory; expected = extractall restricted to sel; on disk "
         "nothing but selected members and their parent directories exists. Cell = (archive kind, folders, |T| class, recursive, sink, has-absent).")
 EXHAUSTIVE = {"quick": "all subsets of member names for every archive (<= 7 members)", "thorough": "all subsets for archives <= 7 members; sampled subsets for 8..12 members"}
@@ -60,7 +60,183 @@ def cases(rng, tier):
             mem, nf = _gen_archive(rng, 12)
             out.append({"members": [[n, k, (b or b"").hex()] for n, k, b in mem], "folders": nf, "writer": rng.choice(["ref", "py"]), "chain": rng.choice(["LZMA2", "COPY", "BCJ+LZMA2", "ZSTD"]),
                         "mode": "sampled", "seed": rng.getrandbits(32), "open": rng.choice(["path", "stream"])})
+    # session histories (a check or an earlier extraction before the selective one) and members whose names are different
+    # spellings of one output path: where a member lands and what it holds must not depend on what else is selected
+    for i in range(6 if tier == "quick" else 60):
+        mem, nf = _gen_archive(rng, 6)
+        out.append({"members": [[n, k, (b or b"").hex()] for n, k, b in mem], "folders": nf, "writer": rng.choice(["ref", "py"]), "chain": rng.choice(["LZMA2", "COPY", "BCJ+LZMA2", "ZSTD"]),
+                    "mode": "history", "seed": rng.getrandbits(32), "open": rng.choice(["path", "stream"])})
+    for i in range(6 if tier == "quick" else 60):
+        out.append({"mode": "respelled", "seed": rng.getrandbits(32), "folders": rng.choice([1, 1, 2]), "chain": rng.choice(["LZMA2", "COPY"]), "open": rng.choice(["path", "stream"])})
     return out
+
+
+RESPELL = [lambda n: n, lambda n: "./" + n, lambda n: n.replace("/", "//", 1) if "/" in n else "./" + n, lambda n: n.replace("/", "/./", 1) if "/" in n else "././" + n]
+
+
+def _run_history(case):
+    import py7zr
+
+    viol, obs, cells = [], {"selective_extractions": 0, "members_compared": 0, "archives": 1, "histories": 0}, set()
+    r = random.Random(case["seed"])
+    with pz.scratch("vf-c09h-") as d:
+        mem, data = _build(case, d)
+        names = [n for n, _, _ in mem]
+        nk = [(n, k) for n, k, _ in mem]
+        path = os.path.join(d, "a.7z")
+        with open(path, "wb") as f:
+            f.write(data)
+
+        def src():
+            return path if case["open"] == "path" else io.BytesIO(data)
+
+        try:
+            gn, full = pz.read_mem(src())
+        except Exception as e:
+            return K.result("held", cell="skip-unreadable", nontrivial=False, obs={"skipped_unreadable": 1}, sample={"skip": pz.exc_sig(e)})
+        if gn != names:
+            return K.result("held", cell="skip-names", nontrivial=False, obs={"skipped_unreadable": 1})
+        for hi in range(12):
+            before = ["testzip", "test", "extract-other", "list+testzip", "extractall", "readall-like"][hi % 6]
+            T = r.sample(names, r.randint(1, len(names)))
+            recursive = r.choice([False, True])
+            want = sel(nk, T, recursive)
+            want_files = {n: full[n] for n in want if n in full}
+            tag = "history %s then extract(T=%r, recursive=%s) in one session" % (before, T[:5], recursive)
+            obs["histories"] += 1
+            obs["selective_extractions"] += 1
+            try:
+                with py7zr.SevenZipFile(src()) as z:
+                    if before == "testzip":
+                        bad = z.testzip()
+                        if bad is not None:
+                            viol.append({"key": "history/testzip-reports-intact-archive", "what": "%s: testzip() names %r in an intact archive" % (tag, bad)})
+                    elif before == "test":
+                        z.test()
+                    elif before == "list+testzip":
+                        z.list()
+                        z.testzip()
+                        z.testzip()
+                    elif before == "extract-other":
+                        z.extract(targets=r.sample(names, r.randint(1, len(names))), factory=pz.CollectFactory())
+                        z.reset()
+                    elif before == "extractall":
+                        z.extractall(factory=pz.CollectFactory())
+                        z.reset()
+                    else:
+                        z.testzip()
+                        z.reset()
+                    fac = pz.CollectFactory()
+                    z.extract(targets=T, recursive=recursive, factory=fac)
+                got = fac.as_dict()
+                obs["members_compared"] += len(want_files)
+                if got != want_files:
+                    viol.append({"key": "history/%s-then-extract-differs" % before, "what": "%s: delivered %r, extractall restricted to the selection is %r" % (
+                        tag, {k: len(v) for k, v in sorted(got.items())[:6]}, {k: len(v) for k, v in sorted(want_files.items())[:6]})})
+            except Exception as e:
+                viol.append({"key": "history/%s-then-extract-raises/%s" % (before, type(e).__name__), "what": "%s raised %s" % (tag, pz.exc_sig(e))})
+            cells.add("history|%s|f%d|%s|%s" % (before, case["folders"], case["writer"], "rec" if recursive else "flat"))
+    if viol:
+        seen = {}
+        for v in viol:
+            seen.setdefault(v["key"], v)
+        return K.result("violated", violations=list(seen.values()), cells=sorted(cells), obs=obs, sample={"members": nk})
+    return K.result("held", cells=sorted(cells), obs=obs, sample={"members": nk})
+
+
+def _run_respelled(case):
+    """Members whose stored names differ but denote one output path ('a', './a', 'd//f', or the same name twice): extractall keeps
+    them apart with a suffix; the selective extraction of any subset delivers each selected member where extractall delivers it."""
+    import py7zr
+
+    viol, obs, cells = [], {"selective_extractions": 0, "members_compared": 0, "archives": 1, "respelled_archives": 1}, set()
+    r = random.Random(case["seed"])
+    base = r.sample(["a.txt", "d/f", "d/sub/g.bin", "k"], r.randint(1, 3))
+    mem = []
+    for b in base:
+        sp = r.sample(range(len(RESPELL)), r.randint(2, 3))
+        if r.random() < 0.3:
+            sp.append(sp[0])  # the very same name twice
+        for j in sp:
+            mem.append(RESPELL[j](b))
+    if r.random() < 0.5:
+        mem.append("other.bin")
+    r.shuffle(mem)
+    datas = [("member %d of %d " % (i, len(mem))).encode() * (i + 2) for i in range(len(mem))]
+    members = [{"name": n, "kind": "file", "data": datas[i], "attributes": 0x20 | 0x8000 | (0o100644 << 16), "mtime": 132000000000000000 + i} for i, n in enumerate(mem)]
+    nf = min(case["folders"], len(mem))
+    parts = [len(mem) // nf + (1 if i < len(mem) % nf else 0) for i in range(nf)]
+    chain = {"LZMA2": [{"m": "LZMA2"}], "COPY": [{"m": "COPY"}]}[case["chain"]]
+    data = W.build(members, {"folders": [{"n": p, "chain": chain, "crc": "sub"} for p in parts], "header": "raw"})
+    with pz.scratch("vf-c09r-") as d:
+        path = os.path.join(d, "a.7z")
+        with open(path, "wb") as f:
+            f.write(data)
+
+        def src():
+            return path if case["open"] == "path" else io.BytesIO(data)
+
+        try:
+            fullfac = pz.CollectFactory()
+            with py7zr.SevenZipFile(src()) as z:
+                gn = z.getnames()
+                z.extractall(factory=fullfac)
+            fulldir = os.path.join(d, "full")
+            with py7zr.SevenZipFile(src()) as z:
+                z.extractall(path=fulldir)
+        except Exception as e:
+            # refusing such an archive altogether is not this property's business
+            return K.result("held", cell="respelled|refused", nontrivial=False, obs={"respelled_refused": 1}, sample={"names": mem, "refused": pz.exc_sig(e)})
+        if gn != mem:
+            return K.result("held", cell="respelled|names-normalised", nontrivial=False, obs={"respelled_refused": 1}, sample={"names": mem, "got": gn})
+        where_f, where_d = {}, {}
+        disk = {p: rec["data"] for p, rec in pz.walk_tree(fulldir).items() if rec["kind"] == "file"}
+        for i, b in enumerate(datas):
+            pf = [n for n, o in fullfac.created if bytes(o.buf) == b]
+            pd = [p for p, v in disk.items() if v == b]
+            if len(pf) != 1 or len(pd) != 1:
+                # extractall itself does not keep the members apart: C13's business (collisions), nothing to restrict here
+                return K.result("held", cell="respelled|extractall-merges", nontrivial=False, obs={"respelled_merged": 1}, sample={"names": mem})
+            where_f[i], where_d[i] = pf[0], pd[0]
+        distinct = sorted(set(mem))
+        subsets = [list(c) for k in range(1, len(distinct) + 1) for c in itertools.combinations(distinct, k)]
+        if len(subsets) > 80:
+            subsets = r.sample(subsets, 80)
+        for si, T in enumerate(subsets):
+            chosen = [i for i, n in enumerate(mem) if n in T]
+            targets = [t + "/" if (si + j) % 3 == 0 else t for j, t in enumerate(T)]
+            tobj = set(targets) if si % 2 else targets
+            tag = "names %r, extract(T=%r)" % (mem, targets)
+            obs["selective_extractions"] += 2
+            obs["members_compared"] += 2 * len(chosen)
+            try:
+                fac = pz.CollectFactory()
+                with py7zr.SevenZipFile(src()) as z:
+                    z.extract(targets=tobj, factory=fac)
+                got = sorted((n, bytes(o.buf)) for n, o in fac.created)
+                want = sorted((where_f[i], datas[i]) for i in chosen)
+                if got != want:
+                    viol.append({"key": "respelled/factory-delivery-depends-on-selection", "what": "%s through a factory delivers %r; extractall delivers these members as %r" % (
+                        tag, [(n, len(b)) for n, b in got][:6], [(n, len(b)) for n, b in want][:6])})
+                out = os.path.join(d, "o%d" % si)
+                with py7zr.SevenZipFile(src()) as z:
+                    z.extract(path=out, targets=tobj)
+                gotd = {p: rec["data"] for p, rec in (pz.walk_tree(out) if os.path.isdir(out) else {}).items() if rec["kind"] == "file"}
+                wantd = {where_d[i]: datas[i] for i in chosen}
+                if gotd != wantd:
+                    viol.append({"key": "respelled/disk-delivery-depends-on-selection", "what": "%s creates %r; extractall creates these members as %r" % (
+                        tag, {k: len(v) for k, v in sorted(gotd.items())[:6]}, {k: len(v) for k, v in sorted(wantd.items())[:6]})})
+            except Exception as e:
+                viol.append({"key": "respelled/raises/%s" % type(e).__name__, "what": "%s raised %s" % (tag, pz.exc_sig(e))})
+            cells.add("respelled|f%d|T%s|%s" % (nf, "all" if len(T) == len(distinct) else "some", "dup" if len(distinct) < len(mem) else "spellings"))
+            if len(viol) > 6:
+                break
+    if viol:
+        seen = {}
+        for v in viol:
+            seen.setdefault(v["key"], v)
+        return K.result("violated", violations=list(seen.values()), cells=sorted(cells), obs=obs, sample={"names": mem})
+    return K.result("held", cells=sorted(cells), obs=obs, sample={"names": mem})
 
 
 def _build(case, d):
@@ -123,6 +299,10 @@ def sel(names_kinds, targets, recursive):
 def run_case(case):
     import py7zr
 
+    if case["mode"] == "history":
+        return _run_history(case)
+    if case["mode"] == "respelled":
+        return _run_respelled(case)
     viol = []
     obs = {"selective_extractions": 0, "members_compared": 0, "archives": 1}
     cells = set()
